@@ -481,6 +481,14 @@ BAD_VARIANTS: list[dict] = [
     dict(bad=('sprp_version',), compress_game=('sprp',)), dict(bad=('ents', 'dprp'), compress=('ENTITIES',), compress_game=('dprp',)),
     dict(bad=('overlays', 'sprp_size'), layout='v21', compress=('OVERLAYS',)), dict(bad=('texinfo', 'ents'), layout='l4d2'),
     dict(bad=('bmodel_ref',)),
+    # round 5: what is left behind when a reader that CHANGES OBJECTS OF ANOTHER VIEW raises half-way.  bmodels (takes the "model"
+    # keys out of the entities of ents): a PHYSCOLLIDE lump the container loads but the physics half of the reader rejects, for
+    # every way that half can raise (struct.error: no terminator / cut inside a header; ValueError: two definitions for one
+    # model; IndexError: block for a missing model; UnicodeDecodeError / KeyValError: keyvalue text).  faces / hdr_faces (set
+    # texinfo and hammer_id of the shared orig_faces objects): a face record naming a missing plane, in the middle of the array.
+    dict(bad=('phys_empty',)), dict(bad=('phys_noterm',), layout='v21'), dict(bad=('phys_cut',), compress=('PHYSCOLLIDE', 'MODELS')),
+    dict(bad=('phys_dup',)), dict(bad=('phys_model',), layout='l4d2'), dict(bad=('phys_kv',)), dict(bad=('phys_kvsyntax',), layout='chaos'),
+    dict(bad=('face_plane',)), dict(bad=('hdr_face_plane',), compress=('FACES_HDR',)),
 ]
 
 
@@ -1068,8 +1076,10 @@ def run(ck: Ck) -> None:
                '/ cubemap tables; LZMA blobs with foreign parameters, small dictionary field and trailing NUL; FACEIDS longer than '
                'the face array; the bundled map also with an adversarial texture-name table; histories: '
                'no access, every single view, every ordered pair on the default file, random subsets and orders, all views '
-               'forwards/backwards, 1-3 look/save cycles; 9 malformed inputs (unknown static-prop version, stray bytes in the prop '
-               'lump, unterminated entity, entity naming a missing brush model, texinfo naming a missing texdata, truncated detail props / overlays, also LZMA-compressed) '
+               'forwards/backwards, 1-3 look/save cycles; 18 malformed inputs (unknown static-prop version, stray bytes in the prop '
+               'lump, unterminated entity, entity naming a missing brush model, texinfo naming a missing texdata, truncated detail props / overlays, '
+               'PHYSCOLLIDE without terminator / cut inside a header / with two definitions for one model / a block for a missing model / '
+               'non-ASCII or unclosed keyvalue text, a face record naming a missing plane in FACES or FACES_HDR, also LZMA-compressed) '
                'whose failing views are looked at inside try/except before saving; random small containers for the container '
                'model; a case is non-trivial when at least one view is looked at; distinct by (input, access cycles)')
     ck.trusted.append('hand-written models SM/LazyLumps.v (tied by traced correspondence on every run, including looks that raise) '
@@ -1212,7 +1222,7 @@ def run(ck: Ck) -> None:
     # ---------------------------------------------------------------------------- correspondence
     if built and side:
         corr_files = [default] + [s for o, s in synth_subjects if o in (dict(layout='v19'), dict(layout='chaos'), dict(aux='zero'))] + \
-            subjects[:1] + [s for o, s in bad_subjects if o in (BAD_VARIANTS[1], BAD_VARIANTS[3], BAD_VARIANTS[5])]
+            subjects[:1] + [s for o, s in bad_subjects if o in (BAD_VARIANTS[1], BAD_VARIANTS[3], BAD_VARIANTS[5], dict(bad=('phys_dup',)))]
         correspondence(ck, side, corr_files, work)
         # stage limits: 10 s / 10 s on a loaded machine; a save or read that never returns ends as a failed tie, not as a hung check
         for nm, fn, args in (('correspondence:container', container_check,
@@ -1367,6 +1377,12 @@ def run(ck: Ck) -> None:
         attempt(s, opts, [list(reversed(VIEWS))])
         for v in failing:
             attempt(s, opts, [[v]])
+        # a failing reader that changes objects of another view: the caller already holds that view / asks for it afterwards / the
+        # file saved after the failed look is read again and the changed view is looked at
+        for a, b2 in REVIEWED_ELEMENT_MUTATIONS:
+            if a in failing and b2 not in failing:
+                attempt(s, opts, [[b2, a]])
+                attempt(s, opts, [[a, b2], [b2]])
         for i in range(ck.budget(3, 40)):
             cyc = [rng.sample(VIEWS, rng.choice([2, 3, 5, 9])) + [rng.choice(failing)] for _ in range(rng.choice([1, 1, 2]))]
             rng.shuffle(cyc[0])
